@@ -10,6 +10,8 @@
 //   laws        for every law configuration x every live state: value finite and inside the support, number of
 //               uniform draws consumed (exact, via the discrete log of the state) bounded, and the exact
 //               population mean / variance / skewness over all M-1 states against theory
+//   tb_grid_vs_points  exact equality of the DbGrid and point-Db code paths of turning bands, every structure type (E1)
+//   popsim      FFT / Cholesky / spectral / SPDE / per-branch turning bands: exact population statistics over every seed
 //   microsim    turning-bands micro-simulations: simtub() is run for EVERY seed 1..M-1 (map/reduce over forked
 //               children); the exact population mean, variance, spatial and cross covariance of the simulated
 //               values are compared with the model.
@@ -329,20 +331,16 @@ static std::vector<MicroCfg> micro_menu()
 {
   std::vector<MicroCfg> V;
   V.push_back({"exp1d", 1, [] { return Model::createFromParam(ECov::EXPONENTIAL, 2., 1.5); }, {{0.}, {1.}}, false, {}, 10, true});
-  V.push_back({"sph1d", 1, [] { return Model::createFromParam(ECov::SPHERICAL, 2., 1.5); }, {{0.}, {1.}}, false, {}, 15, false});
-  V.push_back({"gauss1d-mean", 1, [] { Model* m = Model::createFromParam(ECov::GAUSSIAN, 2., 0.75); m->setMeans({10.}); return m; }, {{0.}, {1.}}, false, {}, 15, false});
   // anisotropic exponential (ranges 4 and 1) rotated by 30 degrees, observed along both coordinate axes: a swap of the
   // ranges, a rotation by the wrong sign or along the wrong axis moves C(1,0) / C(0,1) by 20-60 %
   V.push_back({"aniso2d-rot", 2, [] { return Model::createFromParam(ECov::EXPONENTIAL, 1., 2., 1., {4., 1.}, VectorDouble(), {30., 0.}); }, {{0., 0.}, {1., 0.}, {0., 1.}}, false, {}, 10, false});
-  // grid support (other spreading code path), nested spherical + nugget
-  V.push_back({"grid2x2-sph+nug", 2, [] { Model* m = Model::createFromParam(ECov::SPHERICAL, 3., 1.25); m->addCovFromParam(ECov::NUGGET, 0., 0.5); return m; }, {{0., 0.}, {1., 0.}, {0., 1.}, {1., 1.}}, true, {2, 2}, 10, false});
   // linear model of coregionalisation, 2 variables, 2 structures, non-diagonal sill matrices, non-zero means
   V.push_back({"lmc2", 1, [] {
                  Model* m = Model::createFromParam(ECov::SPHERICAL, 3., 1., 1., VectorDouble(), {2., 1., 1., 1.5});
                  m->addCovFromParam(ECov::EXPONENTIAL, 2., 1., 1., VectorDouble(), {0.5, -0.3, -0.3, 1.});
                  m->setMeans({3., -1.});
                  return m;
-               }, {{0.}, {1.}, {2.5}}, false, {}, 10, false});
+               }, {{0.}, {1.}}, false, {}, 10, false});
   return V;
 }
 
@@ -507,8 +505,8 @@ VF_PART(microsim)
 // ---------------------------------------------------------------------------------------------------------
 // popsim : the other non-conditional simulators, exact population statistics over EVERY seed 1..M-1
 //
-//   fft       CalcSimuFFT (discrete spectral / circulant embedding) on a 4x4 grid, 5 nodes giving lags 1 and 2 along both
-//             axes.  The seed-independent preparation (_alloc, _prepar: dilation, periodic covariance, FFT, amplitude) is
+//   fft       CalcSimuFFT (discrete spectral / circulant embedding) on a 1-D grid of 4 nodes (lags 1-3) and on 4x4 / 5x3
+//             grids (5 nodes giving lags 1 and 2 along both axes).  The seed-independent preparation (_alloc, _prepar: dilation, periodic covariance, FFT, amplitude) is
 //             executed ONCE on the real code; per seed the harness does exactly what CalcSimuFFT::_run/_simulate do:
 //             law_set_random_seed(seed); _defineRandom(); _defineSymmetry(); _final().  The equality of this path with the
 //             public simfft() is re-checked bit for bit on 64 seeds per configuration (key harness:fft-private-path).
@@ -819,6 +817,60 @@ struct SpdeSim : PopSim
   }
 };
 
+
+// ---- turning bands, one configuration per algorithm branch of the band-generation switch (1-D, points 0 and 1, 4 bands).
+// Stationary structures: population variance and C(1) against Model::eval.  Intrinsic structures (no covariance): the
+// increment Z(1) - Z(0) is judged, its population variance against 2 gamma(1) (Model::eval in variogram mode).  The grid
+// support is covered by part tb_grid_vs_points (exact equality of the grid and point code paths, seed by seed).
+#include "Covariances/CovCalcMode.hpp"
+struct TbSim : PopSim
+{
+  std::function<Model*()> mk;
+  Model* model = nullptr;
+  Db* proto = nullptr;
+  bool incr;
+  int nbtuba = 4;
+  TbSim(const std::string& n, std::function<Model*()> m, bool increments, bool q) { family = "tb"; name = n; mk = m; incr = increments; quick = q; }
+  bool prepare(Ctx&, const std::string&) override
+  {
+    defineDefaultSpace(ESpaceType::RN, 1);
+    model = mk();
+    if (model == nullptr) return false;
+    proto = make_db({{0., 1.}}, {"x1"}, {"x1"});
+    SpacePoint p0(VectorDouble{0.}), p1(VectorDouble{1.});
+    if (!incr)
+    {
+      K = 2;
+      mu.assign(K, model->getMean(0));
+      Cm = {model->eval(p0, p0), model->eval(p0, p1), model->eval(p1, p0), model->eval(p1, p1)};
+    }
+    else
+    {
+      K = 1;
+      CovCalcMode mode;
+      mode.setAsVario(true);
+      mu.assign(1, 0.);
+      Cm = {2. * model->eval(p0, p1, 0, 0, &mode)};
+    }
+    extraNote = std::string(incr ? "increment Z(1)-Z(0), expected 2 gamma(1)" : "points 0 and 1") + ", nbtuba=" + std::to_string(nbtuba);
+    return Cm[0] > 0.;
+  }
+  bool draw(int seed, double* z) override
+  {
+    Db* db = proto->clone();
+    int n0 = db->getColumnNumber();
+    int err = simtub(nullptr, db, model, nullptr, 1, seed, nbtuba);
+    bool ok = err == 0 && db->getColumnNumber() == n0 + 1;
+    if (ok)
+    {
+      double a = db->getValueByColIdx(0, n0), b = db->getValueByColIdx(1, n0);
+      if (incr) z[0] = b - a; else { z[0] = a; z[1] = b; }
+    }
+    delete db;
+    return ok;
+  }
+};
+
 static std::vector<PopSim*> pop_menu()
 {
   std::vector<PopSim*> V;
@@ -831,15 +883,29 @@ static std::vector<PopSim*> pop_menu()
   V.push_back(new SpecSim("exponential-aniso", [] { return Model::createFromParam(ECov::EXPONENTIAL, 1., 1., 1., {3., 1.}, VectorDouble(), {30., 0.}); }, 10, false));
   V.push_back(new SpecSim("matern1", [] { return Model::createFromParam(ECov::MATERN, 2., 1., 1.); }, 10, false));
   V.push_back(new SpecSim("exponential-sill2", [] { return Model::createFromParam(ECov::EXPONENTIAL, 2., 2.); }, 10, false));
-  V.push_back(new FftSim("spherical", [] { return Model::createFromParam(ECov::SPHERICAL, 2.5, 1.5); }, false));
   V.push_back(new FftSim("exponential", [] { return Model::createFromParam(ECov::EXPONENTIAL, 2., 1.5); }, false));
-  V.push_back(new FftSim("gaussian", [] { return Model::createFromParam(ECov::GAUSSIAN, 2., 0.75); }, false));
+  V.push_back(new FftSim("gaussian-1d", [] { return Model::createFromParam(ECov::GAUSSIAN, 2., 0.75); }, false, 4, 0));
   V.push_back(new FftSim("spherical-aniso", [] { return Model::createFromParam(ECov::SPHERICAL, 1., 2., 1., {3., 1.5}); }, false));
   // a grid whose dilated dimensions differ along x and y (5x3 -> 8x6): exercises the storage order of the spectrum
   V.push_back(new FftSim("spherical-5x3", [] { return Model::createFromParam(ECov::SPHERICAL, 2.5, 1.5); }, false, 5, 3));
   V.push_back(new SpdeSim("matern1-turbo7x7", false));
   // the cheap FFT configuration of the quick tier: 1-D grid of 4 nodes (dilated to 8), lags 1-3
   V.push_back(new FftSim("spherical-1d", [] { return Model::createFromParam(ECov::SPHERICAL, 2.5, 1.5); }, true, 4, 0));
+  // turning bands: every algorithm branch (thorough); "tb:matern0.3" = K-Bessel through the migration process
+  auto T1 = [](const ECov& t, double range, double sill, double param) { return [=] { return Model::createFromParam(t, range, sill, param); }; };
+  V.push_back(new TbSim("spherical", T1(ECov::SPHERICAL, 2., 1.5, 1.), false, false));
+  V.push_back(new TbSim("cubic+nugget-mean", [] { Model* m = Model::createFromParam(ECov::CUBIC, 2.5, 1.); m->addCovFromParam(ECov::NUGGET, 0., 0.5); m->setMeans({10.}); return m; }, false, false));
+  V.push_back(new TbSim("gaussian", T1(ECov::GAUSSIAN, 2., 0.75, 1.), false, false));
+  V.push_back(new TbSim("sincard", T1(ECov::SINCARD, 2., 1., 1.), false, false));
+  V.push_back(new TbSim("besselj", T1(ECov::BESSELJ, 2., 1., 2.), false, false));
+  V.push_back(new TbSim("matern0.3", T1(ECov::MATERN, 2., 1.5, 0.3), false, false));
+  V.push_back(new TbSim("matern0.45", T1(ECov::MATERN, 2., 1., 0.45), false, false));
+  V.push_back(new TbSim("matern0.75", T1(ECov::MATERN, 2., 1., 0.75), false, false));
+  V.push_back(new TbSim("matern1.5", T1(ECov::MATERN, 2., 2., 1.5), false, false));
+  V.push_back(new TbSim("stable0.7", T1(ECov::STABLE, 2., 1.5, 0.7), false, false));
+  V.push_back(new TbSim("stable1.5", T1(ECov::STABLE, 2., 1., 1.5), false, false));
+  V.push_back(new TbSim("linear-incr", T1(ECov::LINEAR, 2., 1.5, 1.), true, false));
+  V.push_back(new TbSim("power1.5-incr", T1(ECov::POWER, 2., 1.5, 1.5), true, false));
   return V;
 }
 
@@ -961,6 +1027,95 @@ VF_PART(popsim)
     C.cur_case = std::to_string(i);
     run_pop(C, i, *V[i]);
   }
+}
+
+// ---------------------------------------------------------------------------------------------------------
+// tb_grid_vs_points (E1, exact differential): CalcSimuTurningBands has two separate code paths, _simulateGrid (+
+// _spreadRegularOnGrid / _spreadSpectralOnGrid) for a DbGrid support and _simulatePoint (+ ...OnPoint) for a point Db, each
+// with its own copy of the band-generation switch.  For the same model, seed and number of bands, and a point Db made of
+// exactly the nodes of the grid, both paths draw the same directions, the same band seeds and the same 1-D processes:
+// the two fields must be EQUAL up to round-off.  Together with the population statistics on point supports (popsim tb:*,
+// microsim) this decides the grid support for every structure type without a second sweep of the seed space.
+// Enumerated: every structure type / parameter branch x {single, nested behind a spherical structure} x 4 grids (square,
+// anisotropic mesh with an offset origin, rotated, 1-D-like 4x1... see menu) x nbtuba {1, 6} x 4 seeds.
+struct GvpType { ECov type; double param; const char* name; };
+static std::vector<GvpType> gvp_types()
+{
+  return {{ECov::EXPONENTIAL, 1., "EXPONENTIAL"}, {ECov::SPHERICAL, 1., "SPHERICAL"}, {ECov::CUBIC, 1., "CUBIC"}, {ECov::GAUSSIAN, 1., "GAUSSIAN"},
+          {ECov::SINCARD, 1., "SINCARD"}, {ECov::BESSELJ, 2., "BESSELJ"}, {ECov::MATERN, 0.3, "MATERN(0.3)"}, {ECov::MATERN, 0.45, "MATERN(0.45)"},
+          {ECov::MATERN, 0.75, "MATERN(0.75)"}, {ECov::MATERN, 1.5, "MATERN(1.5)"}, {ECov::STABLE, 0.7, "STABLE(0.7)"}, {ECov::STABLE, 1.5, "STABLE(1.5)"},
+          {ECov::POWER, 1.5, "POWER(1.5)"}, {ECov::SPLINE_GC, 1., "SPLINE_GC"}, {ECov::LINEAR, 1., "LINEAR"}, {ECov::ORDER1_GC, 1., "ORDER1_GC"},
+          {ECov::ORDER3_GC, 1., "ORDER3_GC"}, {ECov::ORDER5_GC, 1., "ORDER5_GC"}, {ECov::NUGGET, 1., "NUGGET"}};
+}
+
+VF_PART(tb_grid_vs_points)
+{
+  std::vector<GvpType> TT = gvp_types();
+  Space sp;
+  sp.axis("type", (int)TT.size()).axis("nested", 2).axis("grid", 4).axis("nbtuba", 2).axis("seed", 4).axis("aniso", 2);
+  const int seeds[4] = {12345, 1, 20000158, 777};
+  for_each_case(C, sp, [&](uint64_t id, const std::vector<int>& ix) {
+    if (!C.thorough() && (ix[4] >= 2)) return;  // quick: 2 seeds
+    const GvpType& T = TT[ix[0]];
+    bool nested = ix[1] == 1, aniso = ix[5] == 1;
+    int nbtuba = ix[3] == 0 ? 6 : 1, seed = seeds[ix[4]];
+    int ndim = ix[2] == 3 ? 3 : 2;
+    defineDefaultSpace(ESpaceType::RN, ndim);
+    DbGrid* g;
+    switch (ix[2])
+    {
+      case 0: g = DbGrid::create({2, 2}); break;
+      case 1: g = DbGrid::create({3, 2}, {0.5, 2.}, {10., -3.}); break;
+      case 2: g = DbGrid::create({2, 3}, {1., 0.75}, {1., 2.}, {30., 0.}); break;
+      default: g = DbGrid::create({2, 2, 2}, {1., 0.5, 2.}, {0., 1., -1.}); break;
+    }
+    VectorDouble ranges = ndim == 2 ? VectorDouble{3., 1.5} : VectorDouble{3., 1.5, 2.};
+    VectorDouble angles = ndim == 2 ? VectorDouble{20., 0.} : VectorDouble{20., 0., 0.};
+    Model* m;
+    auto addT = [&](Model* mm) { if (aniso) mm->addCovFromParam(T.type, 1., 1.25, T.param, ranges, VectorDouble(), angles); else mm->addCovFromParam(T.type, 2., 1.25, T.param); };
+    if (!nested) m = aniso ? Model::createFromParam(T.type, 1., 1.25, T.param, ranges, VectorDouble(), angles) : Model::createFromParam(T.type, 2., 1.25, T.param);
+    else { m = Model::createFromParam(ECov::SPHERICAL, 3., 0.5); if (m != nullptr) addT(m); }
+    std::string kase = std::to_string(id);
+    std::string desc = std::string(nested ? "SPHERICAL + " : "") + T.name + (aniso ? " (anisotropic, rotated)" : " (range 2)") + ", grid menu " + std::to_string(ix[2]) + " (" + std::to_string(g->getSampleNumber()) + " nodes), nbtuba=" + std::to_string(nbtuba) + ", seed=" + std::to_string(seed);
+    if (m == nullptr) { C.skip(); C.outcome("model-refused"); delete g; return; }
+    // point Db with the coordinates of the grid nodes
+    int nn = g->getSampleNumber();
+    std::vector<std::vector<double>> cols(ndim);
+    std::vector<std::string> nm, lc;
+    for (int d = 0; d < ndim; d++) { for (int i = 0; i < nn; i++) cols[d].push_back(g->getCoordinate(i, d)); nm.push_back("x" + std::to_string(d + 1)); lc.push_back("x" + std::to_string(d + 1)); }
+    Db* p = make_db(cols, nm, lc);
+    int ng0 = g->getColumnNumber(), np0 = p->getColumnNumber();
+    int eg = simtub(nullptr, g, m, nullptr, 2, seed, nbtuba);
+    int ep = simtub(nullptr, p, m, nullptr, 2, seed, nbtuba);
+    C.eval();
+    if (eg != ep || (eg == 0 && (g->getColumnNumber() != ng0 + 2 || p->getColumnNumber() != np0 + 2)))
+    {
+      C.outcome("error-codes-differ");
+      C.violation(std::string("tb:grid-vs-points:") + T.name + ":error", desc + ": simtub returns " + std::to_string(eg) + " on the grid and " + std::to_string(ep) + " on the same nodes given as points", kase);
+    }
+    else if (eg != 0) { C.skip(); C.outcome(std::string("both-refused:") + T.name); }
+    else
+    {
+      double scale = 0., worst = 0.;
+      int wi = 0, ws = 0;
+      for (int s2 = 0; s2 < 2; s2++)
+        for (int i = 0; i < nn; i++)
+        {
+          double a = g->getValueByColIdx(i, ng0 + s2), b = p->getValueByColIdx(i, np0 + s2);
+          scale = std::max({scale, std::fabs(a), std::fabs(b)});
+          double d = std::fabs(a - b);
+          if (!(d <= worst)) { worst = d; wi = i; ws = s2; }
+        }
+      bool finite = std::isfinite(scale) && std::isfinite(worst);
+      bool ok = finite && worst <= 1e-9 * std::max(1., scale);
+      if (T.type != ECov::NUGGET || nested) C.nontrivial(id);
+      C.outcome(std::string(ok ? "equal(1e-9):" : "DIFFERENT:") + T.name);
+      if (!ok)
+        C.violation(std::string("tb:grid-vs-points:") + T.name, desc + ": node " + std::to_string(wi) + ", simulation " + std::to_string(ws + 1) + ": grid support gives " + fmt(g->getValueByColIdx(wi, ng0 + ws)) + ", the same location as a point gives " + fmt(p->getValueByColIdx(wi, np0 + ws)), kase);
+      if (id % 211 == 0) C.sample("{\"id\":" + kase + ",\"case\":" + jstr(desc) + ",\"max_abs_diff\":" + f6(worst) + "}");
+    }
+    delete g; delete p; delete m;
+  });
 }
 
 int main(int argc, char** argv)
